@@ -37,6 +37,10 @@ func runC10(p *Prog, r *Report) {
 			ackSend := evSendOn(tDB, "writeAckC")
 			checkGuard(p, r, GuardSpec{Rule: "handoff-iff-overflow", Fn: fn, Target: handoff, TargetDesc: "writeMergedC <- false (hand-off)", Atoms: []Atom{overflow}, G: func(a []bool) bool { return a[0] }, GDesc: "overflow", MinTargets: 1})
 			checkGuard(p, r, GuardSpec{Rule: "release-iff-not-overflow", Fn: fn, Target: release, TargetDesc: "<-writeLockC (release)", Atoms: []Atom{overflow}, G: func(a []bool) bool { return !a[0] }, GDesc: "¬overflow", MinTargets: 1})
+			// and conversely: a parked overflow writer IS answered (it listens to nothing else), a
+			// non-overflow exit DOES release the lock
+			checkGuardExact(p, r, GuardSpec{Rule: "overflow-writer-answered", Fn: fn, Target: handoff, TargetDesc: "the parked overflow writer gets its reply (and the lock)", Atoms: []Atom{overflow}, G: func(a []bool) bool { return a[0] }, GDesc: "overflow"}, isReturn, "return")
+			checkGuardExact(p, r, GuardSpec{Rule: "lock-released-without-overflow", Fn: fn, Target: release, TargetDesc: "the write lock is released", Atoms: []Atom{overflow}, G: func(a []bool) bool { return !a[0] }, GDesc: "¬overflow"}, isReturn, "return")
 			// no `writeMergedC <- true` here
 			n := countInstr(fn, func(in ssa.Instruction) bool {
 				s, ok := in.(*ssa.Send)
